@@ -74,10 +74,15 @@ SELF = ["self"]
 
 def place(core_def, props, mods, placement):
     """core_def: def statement of node 'a' (ind 0); props: property statements (ind 2); mods: statements for 'a'."""
-    before = [D("z", "int", "7"), OPT("7"), OPT("8")]
+    pre = []
+    if isinstance(core_def, list):             # [preceding statements..., definition]; only used at root
+        pre, core_def = core_def[:-1], core_def[-1]
+        if placement not in ("root", "chained"):
+            raise HarnessError("preceding statements are only placed at root")
+    before = pre + [D("z", "int", "7"), OPT("7"), OPT("8")]
     after = [D("y", "str", S("q")), FMT("^q$")]
     if placement in ("root", "chained"):
-        return [core_def] + props + mods
+        return pre + [core_def] + props + mods
     if placement == "root+before":
         return before + [core_def] + props + mods
     if placement == "root+after":
@@ -157,6 +162,21 @@ def fam_num_options(tier):
                 yield tags, d, props, mods
 
 
+def fam_int_options_nonintegral(tier):
+    """int node in m with options 250 cm / 350 cm (2.5 m, 3.5 m): no integer value equals them (compared after
+    conversion into the node's unit).  Only the reject direction is judged - whether such an option list may be
+    declared at all is not said anywhere, a final value that equals none of the options must fail either way."""
+    forms = [("per-line", [OPT("250", "cm"), OPT("350", "cm")]), ("list", [OPTS(["250", "350"], "cm")]),
+             ("list-mm", [OPTS(["2500", "3500"], "mm")])]
+    for (fname, props), ftxt in itertools.product(forms, ("2", "3", "4")):
+        for final in [(ftxt, None), (ftxt + "00", "cm")]:
+            for ptag, d, mods, conv, interm in paths_numeric("int", "m", final, ftxt, None, tier):
+                if ptag not in ("def", "mod1", "decl"):
+                    continue
+                yield (["type=int", "unit=m", "kind=options", "form=" + fname, "options=non-integral",
+                        "final=" + ftxt, "path=" + ptag], d, props, mods)
+
+
 OPS = ("<", "<=", ">", ">=", "==", "!=")
 
 
@@ -190,6 +210,31 @@ def fam_num_condition(tier):
                         tags = ["type=" + typ, "unit=" + str(unit), "kind=condition", "cond=" + cname,
                                 "threshold=" + tname, "final=" + ftag, "path=" + ptag]
                         yield tags, d, [COND(expr)], mods
+    # int nodes compared with thresholds that are NOT integral in the node's unit (250 cm = 2.5 m): the threshold must
+    # not be rounded or truncated to the node's data type.  Values 2, 3, 4 lie on both sides of 2.5 and of 3.5.
+    for unit in ("m", None):
+        if unit:
+            thr = [("250-cm", ["num", "250", "cm"]), ("350-cm", ["num", "350", "cm"]),
+                   ("2500-mm", ["num", "2500", "mm"]), ("0.0025-km", ["num", "0.0025", "km"]),
+                   ("0.0035-km", ["num", "0.0035", "km"]), ("2.5-m", ["num", "2.5", "m"])]
+        else:
+            thr = [("2.5", ["num", "2.5", None]), ("3.5", ["num", "3.5", None])]
+        conds = []
+        for op, (tname, t) in itertools.product(OPS, thr):
+            conds.append(("self-%s-T" % op, tname, ["cmp", op, SELF, t]))
+            conds.append(("T-%s-self" % op, tname, ["cmp", op, t, SELF]))
+        lo, hi = (["num", "250", "cm"], ["num", "350", "cm"]) if unit else (["num", "2.5", None], ["num", "3.5", None])
+        conds.append(("interval", "250-350", ["and", ["cmp", ">", SELF, lo], ["cmp", "<", SELF, hi]]))
+        conds.append(("outside", "250-350", ["or", ["cmp", "<", SELF, lo], ["cmp", ">=", SELF, hi]]))
+        for (cname, tname, expr), ftxt in itertools.product(conds, ("2", "3", "4")):
+            wr = [(ftxt, None)] + ([(ftxt + "00", "cm")] if unit else [])
+            for final in wr:
+                for ptag, d, mods, conv, interm in paths_numeric("int", unit, final, ftxt, None, tier):
+                    if tier != "thorough" and ptag not in ("def", "mod1", "decl"):
+                        continue
+                    tags = ["type=int", "unit=" + str(unit), "kind=condition", "cond=" + cname,
+                            "threshold=non-integral:" + tname, "final=" + ftxt, "path=" + ptag]
+                    yield tags, d, [COND(expr)], mods
     # compound conditions (documented interval form, disjunction, negation), float and int
     for typ, unit in itertools.product(("int", "float"), (None, "m")):
         u = unit
@@ -401,10 +446,58 @@ def fam_dims(tier):
                         [D("a", typ, val, unit, dims)]
 
 
-FAMILIES = dict(num_options=fam_num_options, num_condition=fam_num_condition, num_pairs=fam_num_pairs,
+def _scalar(typ):
+    return dict(int="7", float="7.5", str=S("abc"), bool=True)[typ]
+
+
+def fam_dims_missing(tier):
+    """values that lack a declared dimension which has a finite bound (scalar for a rank-1 declaration, flat list for
+    a rank-2 declaration): the missing dimension cannot lie within its bounds -> parse() must fail.  Values with MORE
+    axes than declared, and missing dimensions declared without any bound, are not judged."""
+    r1 = [[[3, 3]], [[2, None]], [[None, 3]], [[1, 4]]]
+    r2 = [[[2, 2], [3, 3]], [[2, 2], [2, 2]], [[2, None], [2, 2]], [[1, None], [1, 2]], [[None, None], [None, 2]],
+          [[1, 2], [2, None]]]
+    for typ in ("int", "float", "str", "bool"):
+        units = (None, "cm") if typ in ("int", "float") else (None,)
+        for dims, unit in itertools.product(r1 + r2, units):
+            rank = len(dims)
+            okshape = (3,) if rank == 1 else ((2, 3) if dims[1] == [3, 3] else (2, 2))
+            ok = _arr(typ, okshape, 3)
+            bad = [("scalar", _scalar(typ))]
+            if rank == 2:
+                bad += [("flat-%d" % n, _arr(typ, (n,))) for n in (1, 2, 3)]
+            for btag, val in bad:
+                base = ["type=" + typ, "unit=" + str(unit), "kind=dimension", "rank=%d" % rank,
+                        "dims=" + G.render_dims(dims), "value=rank-deficient:" + btag]
+                yield base + ["path=def"], D("a", typ, val, unit, dims), [], []
+                am = [] if typ == "bool" else ["array-modification"]
+                yield base + ["path=mod1"] + am, D("a", typ, ok, unit, dims), [], [M("a", val)]
+                yield base + ["path=decl"] + am, D("a", typ, None, unit, dims), [], [M("a", val)]
+                if tier == "thorough":
+                    yield base + ["path=mod2"] + am, D("a", typ, ok, unit, dims), [], [M("a", ok), M("a", val)]
+                    yield base + ["path=mod1-typed"] + am, D("a", typ, ok, unit, dims), [], \
+                        [D("a", typ, val, unit, dims)]
+            # the same declarations with a well-formed value stay accepted (the family must contain both verdicts)
+            yield (["type=" + typ, "unit=" + str(unit), "kind=dimension", "rank=%d" % rank,
+                    "dims=" + G.render_dims(dims), "value=full-rank", "path=def"], D("a", typ, ok, unit, dims), [], [])
+    # rank-deficient value delivered by a sliced injection (root placement only)
+    for typ in ("int", "float"):
+        row = D("row", typ, _arr(typ, (3,)), None, [[3, 3]])
+        for dims, sl, tag in [([[1, 1], [2, 2]], [[0, 1]], "flat-1"), ([[1, None], [1, 3]], [[0, 2]], "flat-2"),
+                              ([[2, 2]], [[1, 1]], "scalar"), ([[1, None]], [[2, 2]], "scalar")]:
+            yield (["type=" + typ, "unit=None", "kind=dimension", "rank=%d" % len(dims), "dims=" + G.render_dims(dims),
+                    "value=rank-deficient:" + tag, "path=def-by-sliced-injection", "root-only"],
+                   [row, D("a", typ, {"ref": {"src": None, "path": "row", "slice": sl}}, None, dims)], [], [])
+        yield (["type=" + typ, "unit=None", "kind=dimension", "rank=1", "dims=[2]", "value=full-rank",
+                "path=def-by-sliced-injection", "root-only"],
+               [row, D("a", typ, {"ref": {"src": None, "path": "row", "slice": [[1, 3]]}}, None, [[2, 2]])], [], [])
+
+
+FAMILIES = dict(int_options_nonintegral=fam_int_options_nonintegral, dims_missing=fam_dims_missing,
+                num_options=fam_num_options, num_condition=fam_num_condition, num_pairs=fam_num_pairs,
                 str=fam_str, bool=fam_bool, declared=fam_declared, dims=fam_dims)
 # families in which both verdicts must occur (vacuity guard)
-BOTH = ["num_options", "num_condition", "num_pairs", "str", "bool", "declared", "dims"]
+BOTH = ["num_options", "num_condition", "num_pairs", "str", "bool", "declared", "dims", "dims_missing"]
 
 
 # ------------------------------------------------------------------------------------------------ judging
@@ -505,6 +598,8 @@ def run_shard(desc):
     seen = set()
     try:
         for tags, d, props, mods in FAMILIES[fam](tier):
+            if "root-only" in tags and pl != "root":
+                continue
             prog = place(d, props, mods, pl)
             key = G.render(prog)
             if pl == "chained" and not any(st["k"] == "mod" for st in prog):
